@@ -14,8 +14,8 @@ func init() { evaluators["C14"] = evalC14 }
 
 // SigField is one field (struct forms) or one positional parameter/result.
 type SigField struct {
-	Go         string `json:"go,omitempty"`    // Go field name (struct forms)
-	TagName    string `json:"tag,omitempty"`   // name given in the argmapper tag
+	Go         string `json:"go,omitempty"`  // Go field name (struct forms)
+	TagName    string `json:"tag,omitempty"` // name given in the argmapper tag
 	TypeOnly   bool   `json:"typeOnly,omitempty"`
 	Sub        string `json:"sub,omitempty"`
 	Other      bool   `json:"other,omitempty"` // unrelated tag keys present
@@ -159,7 +159,17 @@ type stInner struct {
 	A int
 }
 type stNested struct{ stInner } // embeds a struct that embeds the marker: not a marker struct itself
-type stPlain struct{ A, B int }  // no marker: a plain typed value
+type stPlain struct{ A, B int } // no marker: a plain typed value
+// StExp is exported, so embedding it yields an exported (anonymous) field.
+type StExp struct{ A int }
+
+type stEmbeds struct {
+	argmapper.Struct
+	StExp
+	stPlain        // embedded unexported type: an unexported field, skipped
+	X       int    `argmapper:",subtype=k=v"`
+	Y       string `argmapper:"Two Words"`
+}
 
 type staticSig struct {
 	fn      interface{}
@@ -188,6 +198,9 @@ var staticCatalogue = []staticSig{
 	{fn: func() (error, error) { return nil, nil }, out: []expVal{{"", errIface, ""}}},
 	{fn: func() error { return nil }},
 	{fn: func() {}},
+	// an embedded (anonymous) non-marker struct field is an ordinary named value;
+	// a subtype may contain '='; tag names keep inner spaces
+	{fn: func(stEmbeds) {}, in: []expVal{{"stexp", reflect.TypeOf(StExp{}), ""}, {"x", reflect.TypeOf(0), "k=v"}, {"two words", reflect.TypeOf(""), ""}}},
 	// a variadic parameter is one positional value of slice type
 	{fn: func(a int, rest ...string) {}, in: []expVal{{"", reflect.TypeOf(0), ""}, {"", reflect.TypeOf([]string(nil)), ""}}},
 	// a pointer to a plain (marker-less) struct and an interface parameter
